@@ -31,7 +31,11 @@ TextCells == {
   [id |-> "nv1", blank |-> FALSE],
   [id |-> "nv2", blank |-> FALSE],
   [id |-> "nv3", blank |-> FALSE],
-  [id |-> "nv4", blank |-> FALSE] }
+  [id |-> "nv4", blank |-> FALSE],
+  [id |-> "apA", blank |-> FALSE],
+  [id |-> "apX", blank |-> FALSE],
+  [id |-> "nvp", blank |-> FALSE],
+  [id |-> "nvq", blank |-> FALSE] }
 
 AmtCells == {
   [id |-> "p1250", blank |-> FALSE, dot |-> [ok |-> TRUE, cents |-> 1250], comma |-> [ok |-> TRUE, cents |-> 1250]],
